@@ -100,6 +100,16 @@ func (pass *FlattenDisjunctions) flattenDisjunction(schemas ast.Schemas, disjunc
 		for i, branch := range branches {
 			typeName := pass.branchIdentity(prefix, i, branch)
 
+			// a union written in place as a branch (`(string | int) | bool`) brings its own branches
+			if branch.IsDisjunction() {
+				flatten(fmt.Sprintf("%sinner_%d_", prefix, i), branch.AsDisjunction().Branches)
+				if branch.Nullable {
+					null := ast.Null()
+					addBranch(pass.branchIdentity(prefix, i, null), null)
+				}
+				continue
+			}
+
 			if !branch.IsRef() {
 				addBranch(typeName, branch)
 				continue
